@@ -89,6 +89,7 @@ type mon struct {
 	reqActive    bool
 	newBlockCalls int
 	signCalls    int
+	setDataCalls int
 }
 
 func newMon(h uint32) *mon {
@@ -354,6 +355,7 @@ func (n *Node) onSign(b *Block) {
 
 func (n *Node) onSetData(b *PreBlock) {
 	n.setDatas++
+	n.monFor(n.d.BlockIndex).setDataCalls++
 	if n.kind == kWatchFlag || n.kind == kOutside {
 		n.w.violate("C13", "C13/watch-only-precommit-data", n, "watch-only node produced pre-commit data")
 	}
